@@ -703,6 +703,11 @@ def _functions():
     reg("any_keep0", lambda x: jnp.where(jnp.any(x > 0.5, axis=0, keepdims=True), x, -x), [(3, 3)])
     reg("all_keep1", lambda x: jnp.where(jnp.all(x > -1.0, axis=1, keepdims=True), x, -x), [(3, 3)])
     reg("amax_nokeep", lambda x: jnp.amax(x, axis=0) - jnp.amin(x, axis=1), [(3, 3)])
+    # a primitive with an OUTPUT-axis parameter (one_hot inserts the class axis): every axis position x every mapped axis
+    for _ax in (-2, -1, 0, 1):
+        reg(f"one_hot_axis{_ax}", (lambda ax: (lambda x: jax.nn.one_hot(jnp.floor(jnp.abs(x) * 1.9).astype(jnp.int32), 3, axis=ax) * (1.0 + x[0])))(_ax), [(2,)])
+    reg("one_hot_rank2_axis1", lambda x: jax.nn.one_hot(jnp.floor(jnp.abs(x) * 1.9).astype(jnp.int32), 3, axis=1), [(2, 2)])
+    reg("one_hot_rank2_axis-3", lambda x: jax.nn.one_hot(jnp.floor(jnp.abs(x) * 1.9).astype(jnp.int32), 3, axis=-3), [(2, 2)])
     # ---- binary (mixed ranks: the second operand is the higher-rank / the weight)
     reg("add_mixed", lambda x, y: jnp.add(x, y), [(3,), (3, 3)])
     reg("mul_mixed", lambda x, y: jnp.multiply(x, y), [(3,), (2, 3)])
@@ -813,6 +818,10 @@ def _transforms(name, spec):
     return T
 
 
+# (transformation, function) pairs whose refusal is a finding of its own: differentiation through jnp.add with operands of different rank
+# (bias + matrix) -- the forwarded lax.add_p rules need equal ranks
+MUST_EXPORT = {("grad", "add_mixed"), ("jvp", "add_mixed"), ("vjp", "add_mixed"), ("value_and_grad", "add_mixed"),
+               ("grad_argnums(0,1)", "add_mixed")}
 T_PRIORITY = ["vmap0", "vmap(0,None)", "vmap(None,0)", "vmap(1,0)", "vmap(0,1)", "vmap1", "vmap-1", "vmap0_out1", "grad", "vjp", "jvp", "jit", "nested_jit",
               "custom_jvp", "custom_vjp", "checkpoint", "value_and_grad", "grad_of_custom_vjp"]
 QUICK_T = {"vmap0", "vmap(0,None)", "vmap(None,0)", "vmap(1,0)", "vmap(0,1)", "vmap1", "vmap-1", "vmap0_out1", "jit", "nested_jit", "grad",
@@ -901,6 +910,11 @@ def explore(ctx, budget_s):
         perT.setdefault(tn, {"ok": 0, "mismatch": 0, "reject": 0, "ref_error": 0})[res] += 1
         if res == "reject":
             rejects.setdefault(detail.split(":")[0], []).append(f"{tn}:{name}")
+            if (tn, name) in MUST_EXPORT:
+                ctx.violate(f"reject:{tn}:{name}",
+                            f"export of {tn}({name}) (input shapes {shapes}) is refused although the un-transformed function exports and JAX "
+                            f"evaluates the transformed one: {detail}",
+                            {"kind": "transform", "T": tn, "f": name, "seed": int(seed)})
         if res == "mismatch":
             ctx.violate(f"transform:{tn}:{name}",
                         f"export of {tn}({name}) (input shapes {shapes}) does not compute what JAX computes: {detail}",
@@ -1369,7 +1383,7 @@ def replay(path):
             rng = np.random.RandomState((int(r["seed"]) + hash_str(r["f"] + "|" + tn)) % (2 ** 31 - 1))
             res, detail = _run_one(fn, shapes, rng)
             print(f"{tn}({r['f']}): {res} {detail}")
-            return 1 if res == "mismatch" else 0
+            return 1 if res == "mismatch" or (res == "reject" and (tn, r["f"]) in MUST_EXPORT) else 0
     print("transformation not found")
     return 2
 
